@@ -11,8 +11,8 @@
    A replace_leaves method does not copy its node: it RE-RUNS the builder method on the new source and forwards
    some of the node's fields as arguments.  Every forwarded argument is a field of an explicit argument record
    below, so that "this replace_leaves forgets `limit`" is a one-line difference between model and code
-   (fw_code is the forwarding of the code with the three C07 fixes; fw_before_fixes is what the tree did before
-   them and is kept only as the witness of the `_refuted` theorems).
+   (fw_code is the forwarding of the code as of /repo commits bd1e9c5, 4c01664, bd78577 -- the three C07 fixes;
+   fw_before_fixes is what the tree did before them and is kept only as the witness of the `_refuted` theorems).
 
    NOT modelled here (stated in Props/C07.v and in the evidence): the simplifications a re-run builder may apply
    when the new source ends in a suitable node -- extend merging (try_to_merge_ops), skipping of an intermediate
@@ -108,7 +108,7 @@ Record forwarding := mk_forwarding {
   fw_concat_rows : op -> op -> option string -> string -> string -> op * concat_rows_args           (* new_sources[0], new_sources[1], id_column, a_name, b_name *)
 }.
 
-(* the code (with the fixes pending_fixes/C07-*.patch):
+(* the code (since the fixes bd1e9c5 select_rows keyword, 4c01664 map_columns deletions, bd78577 partition_by=1):
      ExtendNode:        extend_parsed_(parsed_ops=self.ops, partition_by=<1 if windowed_situation and not partition_by else self.partition_by>,
                                        order_by=self.order_by, reverse=self.reverse)
      ProjectNode:       project_parsed_(parsed_ops=self.ops, group_by=self.group_by)
@@ -200,12 +200,22 @@ Fixpoint boundary_ok (m : rmap) (p : op) : bool :=
   | OExtend s _ _ _ | OProject s _ _ | OSelectRows s _ | OSelectCols s _ | ODropCols s _ | ORename s _ | OMapCols s _ _ | OOrder s _ _ _ => boundary_ok m s
   | OJoin a b _ _ _ | OConcat a b _ _ _ => boundary_ok m a && boundary_ok m b
   end.
-(* the weaker condition that act_on / DataOpArrow.act_on test: equal column SETS *)
+(* the weaker condition that act_on / DataOpArrow.act_on test: the replacement produces the leaf's column SET *)
 Fixpoint boundary_sets_ok (m : rmap) (p : op) : bool :=
   match p with
-  | OTable n cs => match dict_get m n with Some r => set_eqb (column_names r) cs && nodupb cs && nodupb (column_names r) | None => true end
+  | OTable n cs => match dict_get m n with Some r => set_eqb (column_names r) cs | None => true end
   | OExtend s _ _ _ | OProject s _ _ | OSelectRows s _ | OSelectCols s _ | ODropCols s _ | ORename s _ | OMapCols s _ _ | OOrder s _ _ _ => boundary_sets_ok m s
   | OJoin a b _ _ _ | OConcat a b _ _ _ => boundary_sets_ok m a && boundary_sets_ok m b
+  end.
+
+(* no rename_columns / map_columns step gives two of its input columns the same name: the renamed column list is
+   duplicate-free (RenameColumnsNode / MapColumnsNode hand it to ViewRepresentation.__init__, which asserts that) *)
+Fixpoint renames_okb (p : op) : bool :=
+  match p with
+  | OTable _ _ => true
+  | ORename s m | OMapCols s m _ => renames_okb s && nodupb (map (rename_col m) (column_names s))
+  | OExtend s _ _ _ | OProject s _ _ | OSelectRows s _ | OSelectCols s _ | ODropCols s _ | OOrder s _ _ _ => renames_okb s
+  | OJoin a b _ _ _ | OConcat a b _ _ _ => renames_okb a && renames_okb b
   end.
 
 (* ------------------------------------------------------------------ environments *)
